@@ -24,10 +24,12 @@ pub const SCHEMA: &str = r#"
     CREATE TABLE IF NOT EXISTS t1 (id INTEGER NOT NULL PRIMARY KEY, a INTEGER, b INTEGER);
     CREATE TABLE IF NOT EXISTS t2 (id INTEGER NOT NULL PRIMARY KEY, r INTEGER, c INTEGER);
     CREATE TABLE IF NOT EXISTS t3 (x INTEGER NOT NULL, y INTEGER NOT NULL, d INTEGER, PRIMARY KEY (x, y));
+    CREATE TABLE IF NOT EXISTS t4 (p INTEGER NOT NULL, q INTEGER NOT NULL, PRIMARY KEY (p, q));
 "#;
-pub const TNAME: [&str; 3] = ["t1", "t2", "t3"];
-pub const PKS: [&[&str]; 3] = [&["id"], &["id"], &["x", "y"]];
-pub const VALS: [&[&str]; 3] = [&["a", "b"], &["r", "c"], &["d"]];
+/// t4 consists of its primary key only (used by C14; the C11 queries read t1..t3)
+pub const TNAME: [&str; 4] = ["t1", "t2", "t3", "t4"];
+pub const PKS: [&[&str]; 4] = [&["id"], &["id"], &["x", "y"], &["p", "q"]];
+pub const VALS: [&[&str]; 4] = [&["a", "b"], &["r", "c"], &["d"], &[]];
 
 fn colname(t: usize, c: usize) -> String {
     let n = PKS[t].len();
@@ -89,6 +91,12 @@ pub fn stmt(t: &mut Toks) -> Statement {
     let wh = PKS[ti].iter().zip(keys.iter()).map(|(c, k)| format!("{c} = {k}")).collect::<Vec<_>>().join(" AND ");
     let tn = TNAME[ti];
     Statement::Simple(match kind {
+        "I" if VALS[ti].is_empty() => format!(
+            "INSERT INTO {tn} ({}) VALUES ({}) ON CONFLICT ({}) DO NOTHING",
+            PKS[ti].join(", "),
+            keys.join(", "),
+            PKS[ti].join(", ")
+        ),
         "I" => {
             let vals: Vec<String> = (0..VALS[ti].len()).map(|_| v(t.tok())).collect();
             format!(
@@ -219,9 +227,13 @@ fn cell(v: &rusqlite::types::Value) -> String {
 }
 
 pub async fn db_dump(n: &Node) -> String {
+    db_dump_n(n, 3).await
+}
+
+pub async fn db_dump_n(n: &Node, ntables: usize) -> String {
     let conn = n.kit.agent.pool().read().await.unwrap();
     let mut parts = vec![];
-    for ti in 0..3 {
+    for ti in 0..ntables {
         let cols: Vec<&str> = PKS[ti].iter().chain(VALS[ti].iter()).copied().collect();
         let sql = format!("SELECT {} FROM {} ORDER BY {}", cols.join(", "), TNAME[ti], PKS[ti].join(", "));
         let mut st = conn.prepare(&sql).unwrap();
